@@ -702,6 +702,8 @@ class Ctx(object):
         floats."""
         eng = self.engine
         st = eng.stats
+        if eng.dry:
+            return True
         st.obligations += 1
         self.reach(name)
         t = tobool3(violated)
@@ -710,7 +712,11 @@ class Ctx(object):
             st.discharged += 1
             eng.note_sample(self, name, ts, 'unsat(trivial)')
             return True
-        r, m = self._query([t])
+        self.solver.set('timeout', eng.first_timeout_ms)
+        try:
+            r, m = self._query([t])
+        finally:
+            self.solver.set('timeout', eng.query_timeout_ms)
         if r == z3.unknown:
             r, m = self._fresh_solve(t)
         if r == z3.unsat:
@@ -729,19 +735,38 @@ class Ctx(object):
         return False
 
     def _fresh_solve(self, t):
+        """Portfolio for an obligation the incremental solver could not decide: the
+        nlsat-based tactic first (decides most polynomial identities in well under a
+        second), then a fresh default solver."""
         st = self.engine.stats
-        s = z3.Solver()
-        s.set('timeout', self.engine.final_timeout_ms)
-        for p in self.pc:
-            s.add(p)
-        s.add(t)
-        t0 = time.time()
-        r = s.check()
-        dt = time.time() - t0
-        st.queries += 1
-        st.solver_time += dt
-        st.max_query = max(st.max_query, dt)
-        return r, (s.model() if r == z3.sat else None)
+        r, m = z3.unknown, None
+        for mk in (lambda: z3.Tactic('qfnra-nlsat').solver(), lambda: z3.Solver()):
+            try:
+                s = mk()
+            except z3.Z3Exception:
+                continue
+            s.set('timeout', self.engine.final_timeout_ms)
+            for p in self.pc:
+                s.add(p)
+            s.add(t)
+            t0 = time.time()
+            try:
+                r = s.check()
+            except z3.Z3Exception:
+                r = z3.unknown
+            dt = time.time() - t0
+            st.queries += 1
+            st.solver_time += dt
+            st.max_query = max(st.max_query, dt)
+            if r == z3.sat:
+                try:
+                    m = s.model()
+                except z3.Z3Exception:
+                    r = z3.unknown
+                    continue
+            if r != z3.unknown:
+                break
+        return r, m
 
     def _robust_model(self, extra=None):
         s = z3.Solver()
@@ -892,13 +917,14 @@ class ConcreteCtx(object):
 # --------------------------------------------------------------------------
 class Engine(object):
     def __init__(self, config_name='', mode='precise', max_depth=600, query_timeout_s=60,
-                 final_timeout_s=120, check_div=True, max_paths=None, margin=1e-6,
-                 square_abs=False, max_concretize=64, validate=200, budget_s=None):
+                 final_timeout_s=60, first_timeout_s=4, check_div=True, max_paths=None, margin=1e-6,
+                 square_abs=False, max_concretize=64, validate=200, budget_s=None, dry=False):
         self.config_name = config_name
         self.mode = mode
         self.max_depth = max_depth
         self.query_timeout_ms = int(query_timeout_s * 1000)
         self.final_timeout_ms = int(final_timeout_s * 1000)
+        self.first_timeout_ms = int(first_timeout_s * 1000)
         self.check_div = check_div
         self.max_paths = max_paths
         self.margin = margin
@@ -906,6 +932,7 @@ class Engine(object):
         self.max_concretize = max_concretize
         self.validate = validate
         self.budget_s = budget_s
+        self.dry = dry
         self.stats = Stats()
         self.work = []
         self.candidates = []
@@ -1031,21 +1058,125 @@ class Engine(object):
                                              'why': 'output count differs %d vs %d' % (len(cc.outputs), len(ctx.outputs)),
                                              'assignment': assign})
             return
+        env = _FloatEnv(assign)
         for (n1, v1), (n2, v2) in zip(ctx.outputs, cc.outputs):
-            if not _outputs_agree(m, v1, v2):
+            if not _outputs_agree(env, v1, v2):
                 self.validation_failures.append({'config': self.config_name,
-                                                 'why': 'output %s differs: symbolic %s vs concrete %r' % (n1, _evalstr(m, v1), v2),
+                                                 'why': 'output %s differs: symbolic %s vs concrete %r' % (n1, _evalstr(env, v1), v2),
                                                  'assignment': assign})
                 return
         self.stats.validated += 1
 
 
+UF_FLOAT = {}   # uninterpreted function name -> python float function (filled by ops)
+
+
+def float_eval(t, env, memo=None):
+    """Evaluate a z3 term on floats: variables from env (name -> float/int/bool),
+    uninterpreted functions through their real counterparts in UF_FLOAT.  Used by the
+    translator validation, so that encodings with uninterpreted sin/cos/exp/... are
+    compared with what the real code computes."""
+    if memo is None:
+        memo = {}
+    key = t.get_id()
+    if key in memo:
+        return memo[key]
+    r = _float_eval(t, env, memo)
+    memo[key] = r
+    return r
+
+
+def _float_eval(t, env, memo):
+    if z3.is_int_value(t):
+        return t.as_long()
+    if z3.is_rational_value(t):
+        return t.numerator_as_long() / t.denominator_as_long()
+    if z3.is_true(t):
+        return True
+    if z3.is_false(t):
+        return False
+    if z3.is_const(t) and t.decl().kind() == z3.Z3_OP_UNINTERPRETED:
+        n = t.decl().name()
+        if n in env:
+            v = env[n]
+            if isinstance(v, (list, tuple)):
+                v = float(Fraction(int(v[0]), int(v[1])))
+            return v
+        if n == 'PI':
+            return math.pi
+        if n == 'EULER':
+            return math.e
+        raise KeyError(n)
+    k = t.decl().kind()
+    ch = [float_eval(c, env, memo) for c in t.children()]
+    if k == z3.Z3_OP_ADD:
+        return sum(ch)
+    if k == z3.Z3_OP_SUB:
+        r = ch[0]
+        for c in ch[1:]:
+            r = r - c
+        return r
+    if k == z3.Z3_OP_UMINUS:
+        return -ch[0]
+    if k == z3.Z3_OP_MUL:
+        r = 1
+        for c in ch:
+            r = r * c
+        return r
+    if k in (z3.Z3_OP_DIV,):
+        return ch[0] / ch[1]
+    if k == z3.Z3_OP_IDIV:
+        return ch[0] // ch[1]
+    if k == z3.Z3_OP_MOD:
+        return ch[0] % ch[1]
+    if k == z3.Z3_OP_TO_REAL:
+        return ch[0]
+    if k == z3.Z3_OP_TO_INT:
+        return math.floor(ch[0])
+    if k == z3.Z3_OP_POWER:
+        return ch[0] ** ch[1]
+    if k == z3.Z3_OP_ITE:
+        return ch[1] if ch[0] else ch[2]
+    if k == z3.Z3_OP_LE:
+        return ch[0] <= ch[1]
+    if k == z3.Z3_OP_LT:
+        return ch[0] < ch[1]
+    if k == z3.Z3_OP_GE:
+        return ch[0] >= ch[1]
+    if k == z3.Z3_OP_GT:
+        return ch[0] > ch[1]
+    if k == z3.Z3_OP_EQ:
+        return ch[0] == ch[1]
+    if k == z3.Z3_OP_DISTINCT:
+        return len(set(ch)) == len(ch)
+    if k == z3.Z3_OP_AND:
+        return all(ch)
+    if k == z3.Z3_OP_OR:
+        return any(ch)
+    if k == z3.Z3_OP_NOT:
+        return not ch[0]
+    if k == z3.Z3_OP_IMPLIES:
+        return (not ch[0]) or ch[1]
+    if k == z3.Z3_OP_UNINTERPRETED:
+        f = UF_FLOAT.get(t.decl().name())
+        if f is None:
+            raise KeyError(t.decl().name())
+        return f(*ch)
+    raise KeyError('op %s' % t.decl().name())
+
+
+class _FloatEnv(object):
+    def __init__(self, assign):
+        self.env = assign
+        self.memo = {}
+
+
 def _evalnum(m, v):
-    if isinstance(v, SNum):
-        fr = numeral_fraction(m.eval(v.t, model_completion=True))
-        return float(fr) if fr is not None else None
-    if isinstance(v, SBool):
-        return bool(z3.is_true(m.eval(v.t, model_completion=True)))
+    if isinstance(v, (SNum, SBool)):
+        try:
+            return float_eval(v.t, m.env, m.memo)
+        except (KeyError, ZeroDivisionError, OverflowError, ValueError, TypeError):
+            return None   # auxiliary solver variable / undefined: nothing to compare
     return v
 
 
